@@ -259,8 +259,13 @@ def run_one(tape, tier, opts):
 
             an = algo_name(primary_count)
             outp = os.path.join(rundir, "cli-out", "sample.targetcoverage.cnn")
+            # a bare "-p" is documented as "use all available CPUs" (processes=0 -> every CPU)
+            bare_p = tape.chance(1, 4, "cov.cli_bare_p")
             argv = ["coverage", bam, bed_plain if primary_count else bed_pile, "-o", outp,
-                    "-q", str(min_mapq), "-p", str(processes)] + (["-c"] if primary_count else [])
+                    "-q", str(min_mapq)] + (["-c"] if primary_count else []) + (
+                        ["-p"] if bare_p else ["-p", str(processes)])
+            if bare_p:
+                ctx.probe("cli.bare_p_all_cpus")
             try:
                 cargs = commands.parse_args(argv)
                 cargs.func(cargs)
@@ -269,8 +274,8 @@ def run_one(tape, tier, opts):
             except C.SimCrash:
                 raise
             except BaseException as exc:  # noqa: BLE001
-                raise Violation("D3", f"C09/D3/{an}/cli",
-                                f"cnvkit.py coverage -p {processes} {'-c ' if primary_count else ''}raised "
+                raise Violation("D3", f"C09/D3/{an}/cli{'/bare_p' if bare_p else ''}",
+                                f"cnvkit.py coverage -p {'' if bare_p else processes} {'-c ' if primary_count else ''}raised "
                                 f"{type(exc).__name__}: {D.mask_text(exc)[:300]} (do_coverage succeeds)")
             df = pd.read_csv(outp, sep="\t", na_filter=False, dtype={"chromosome": str, "gene": str})
             got = list(zip(df["chromosome"].tolist(), df["start"].tolist(), df["end"].tolist(),
